@@ -486,6 +486,18 @@ Section StageFacts.
     split; [exact (j_sig_src _ _ _ _ _ HJ) | exact (j_sig _ _ _ _ _ HJ)].
   Qed.
 
+  Theorem stage_src : Dn s src = Some O.
+  Proof. destruct (bbfs_J g src Hok Hsrc Hrows s Hs) as [R [HJ Hq]]. exact (j_src _ _ _ _ _ HJ). Qed.
+
+  Theorem stage_tight : forall w k, Dn s w = Some (S k) -> exists v, E g v w /\ Dn s v = Some k.
+  Proof.
+    destruct (bbfs_J g src Hok Hsrc Hrows s Hs) as [R [HJ Hq]]. intros w k Hw.
+    assert (Hne : w <> src). { intro X. subst. rewrite (j_src _ _ _ _ _ HJ) in Hw. discriminate. }
+    assert (Hin : In w (qS s ++ qq s)) by (apply (j_dom _ _ _ _ _ HJ); congruence).
+    destruct (j_tight _ _ _ _ _ HJ w Hin Hne) as [v [kv [A [B [C D]]]]].
+    exists v. split; [exact B|]. rewrite Hw in D. inversion D. subst. exact C.
+  Qed.
+
   (* D = hop distances (None = unreachable) *)
   Theorem stage_D : forall w, dist_spec (unit_z g) src w (oget (dvec s) w).
   Proof.
